@@ -61,3 +61,27 @@ CONTRACTS = {
         rounds=3, timeout_ms=60000, chunks=4,
     ),
 }
+
+# ---- linalg.matrix_multiply, matrix x matrix branch: result[i][j] == sum_k mat1[i][k] * mat2[k][j]   (C16 "matrix product
+# equals its definition", every size).  The `except TypeError` branch (matrix x flat vector) is a dispatch on the type of
+# mat2's entries and is not part of this contract (mat2 is a list of rows here); Engine B covers it.
+ROWS3 = ['len(mat3) == n', 'forall(a, 0, n, len(mat3[a]) == m)', 'n == len(mat1)', 'm == len(mat2[0])', 'p2 == len(mat2)']
+DONE = lambda top: 'forall(a, 0, %s, forall(b, 0, m, mat3[a][b] == cdot(mat1[a], mat2, b, 0, p2)))' % top
+CONTRACTS['linalg.matrix_multiply'] = dict(
+    props=['C16', 'C11'],
+    args=OD([('mat1', M), ('mat2', M)]), returns=M, locals={'mat3': M},
+    requires=['len(mat1) >= 1', 'len(mat2) >= 1', 'forall(a, 0, len(mat1), len(mat1[a]) == len(mat2))',
+              'forall(b, 0, len(mat2), len(mat2[b]) == len(mat2[0]))'],
+    ensures=['len(result) == len(mat1)', 'forall(a, 0, len(mat1), len(result[a]) == len(mat2[0]))',
+             'forall(a, 0, len(mat1), forall(b, 0, len(mat2[0]), result[a][b] == cdot(mat1[a], mat2, b, 0, len(mat2))))'],
+    raises={'GeomdlException': 'False'},
+    loops={0: dict(inv=ROWS3 + [DONE('i'), 'forall(a, i, n, forall(b, 0, m, mat3[a][b] == 0))']),
+           1: dict(inv=ROWS3 + [DONE('i'), 'forall(a, i + 1, n, forall(b, 0, m, mat3[a][b] == 0))',
+                                'forall(b, 0, j, mat3[i][b] == cdot(mat1[i], mat2, b, 0, p2))',
+                                'forall(b, j, m, mat3[i][b] == 0)']),
+           2: dict(inv=ROWS3 + [DONE('i'), 'forall(a, i + 1, n, forall(b, 0, m, mat3[a][b] == 0))',
+                                'forall(b, 0, j, mat3[i][b] == cdot(mat1[i], mat2, b, 0, p2))',
+                                'forall(b, j + 1, m, mat3[i][b] == 0)',
+                                'mat3[i][j] == cdot(mat1[i], mat2, j, 0, k)'])},
+    rounds=3, timeout_ms=30000, chunks=3,
+)
